@@ -214,3 +214,17 @@ macro_rules! by_degree7 {
         }
     };
 }
+
+/// Rust literal for an f64 (bit exact)
+pub fn lit(x: f64) -> String {
+    format!("f64::from_bits({:#018x}) /* {:e} */", x.to_bits(), x)
+}
+/// self-contained test (public API only) rebuilding a probe function over `ends`; `body` uses `pw` and `ends`
+pub fn repro(ends: &[f64], body: &str) -> String {
+    let e: Vec<String> = ends.iter().map(|x| lit(*x)).collect();
+    format!(
+        "use piecewise_polynomial::*;\n#[test]\nfn replay() {{\n    let ends = [{}];\n    // piece i is the constant i\n    let pw = Piecewise {{ segments: ends.iter().enumerate().map(|(i, &e)| Segment {{ end: e, poly: Poly0(i as f64) }}).collect::<Vec<_>>() }};\n{}\n}}\n",
+        e.join(", "),
+        body
+    )
+}
